@@ -189,7 +189,10 @@ def item(p, depth, ctx):
                                            "doc": p.mdoc()}))
     if want("generic"):
         alts.append(st.fixed_dictionaries({"k": st.just("generic"), "cmd": st.sampled_from(p.generic_cmds or GENERIC_CMDS),
-                                           "args": group_args(p.group_depth if p.groups else 0, p.max_args, p.arg_pool),
+                                           "args": weighted((12, group_args(p.group_depth if p.groups else 0, p.max_args, p.arg_pool)),
+                                                            # a very long argument list (the signature line grows far beyond 200 columns)
+                                                            (1, st.lists(st.sampled_from(["src/long_directory_name/file_@.cpp", "ITEM_@", '"quoted value @"']),
+                                                                         min_size=20, max_size=40))),
                                            "doc": p.mdoc()}))
     if want("block") and sub:
         alts.append(st.fixed_dictionaries({"k": st.just("block"), "open": st.sampled_from(sorted(BLOCKS)),
@@ -230,7 +233,7 @@ def item(p, depth, ctx):
                 st.tuples(a, st.sampled_from([True] + [False] * (7 if p.dups is True else int(p.dups)))).map(_with_dup) for a in alts]
     if p.weights:
         # alternatives are dict strategies with a fixed "k"; repeat them by weight (0 drops the kind here)
-        weighted = []
+        wl = []
         seen = set()
         for a in alts:
             if id(a) in seen or _kind_of(a) is None and False:
@@ -239,8 +242,8 @@ def item(p, depth, ctx):
             k = _kind_of(a)
             w = p.weights.get(k, 1)
             if w > 0:
-                weighted += rep(a, w)
-        alts = weighted or alts
+                wl += rep(a, w)
+        alts = wl or alts
     return st.one_of(*alts)
 
 
@@ -367,6 +370,9 @@ def _fin_doc(d, c, bare_ok=True):
     out = {"lines": lines, "form": form, "marker": marker}
     if d.get("close"):
         out["close"] = d["close"]       # "inline": the closing '#]]' ends the last text line
+    for k in ("opener", "empty_bare"):   # text on the '#[[[' line; empty lines written without leader and indentation
+        if d.get(k):
+            out[k] = d[k]
     if d.get("indent") is not None:
         out["indent"] = d["indent"] if form != "bare" else ""
     return out
@@ -427,6 +433,8 @@ def _fin_items(lst, c, in_body):
             it["bases"] = _num(it["bases"], c)
             if dup and c.last.get("class-bases") is not None:
                 it["bases"], it["doc"] = list(c.last["class-bases"]), None      # a class declared again: same name and bases
+            if it["bases"] and c.n % 5 == 0:
+                it["bases"] = it["bases"] + [it["bases"][0]]        # the same base named twice
             c.last["class-bases"] = list(it["bases"])
             it["doc"] = _fin_doc(it["doc"], c)
             c.classes.append(it["name"])
